@@ -18,7 +18,7 @@ def post(rep, templates, results):
     groups = [dict(pkg='compiler/internal/semantics/typechecker', rel='internal/semantics/typechecker', harnesses=['HarnessC10Small', 'HarnessC10LeadingZero', 'HarnessC10Sequence'])]
     for g in groups:
         try:
-            rs = gosymrun.run(g['pkg'], g['harnesses'], max_paths=100000, timeout_ms=20000, wall_timeout=1700)
+            rs = gosymrun.run(g['pkg'], g['harnesses'], max_paths=100000, timeout_ms=20000 if runner.tier() == 'quick' else 90000, wall_timeout=1700)
         except Exception as e:
             rep.inconc(g['pkg'], 'gosym: %s' % e)
             continue
